@@ -32,6 +32,7 @@ fn main() {
         "vec" => vecad::main(&args[2..]),
         "arc" => arcad::plain::main(&args[2..]),
         "arc64" => arcad::over::main(&args[2..]),
+        "arcpod" => arcad::nodrop::main(&args[2..]),
         "boxes" => boxad::main(&args[2..]),
         "xmod" => xmodad::main(&args[2..]),
         "cview" => cviewad::main(&args[2..]),
